@@ -49,7 +49,12 @@ RELEVANT = {
 
 
 def _digest(node):
-    return hashlib.sha256(ast.dump(node, annotate_fields=True, include_attributes=False).encode()).hexdigest()[:16]
+    return hashlib.sha256(_text(node).encode()).hexdigest()[:16]
+
+
+def _text(node):
+    """normalised source text (comments and layout do not count; stable across Python versions, unlike ast.dump)"""
+    return ast.unparse(node)
 
 
 def current():
@@ -78,10 +83,10 @@ def current():
                     else:
                         rest.append(sub)
                 out["{}::{}.<class body>".format(rel, node.name)] = hashlib.sha256(
-                    ("|".join(ast.dump(x) for x in rest) + "|" + "|".join(ast.dump(b) for b in node.bases)).encode()).hexdigest()[:16]
+                    ("|".join(_text(x) for x in rest) + "|" + "|".join(_text(b) for b in node.bases)).encode()).hexdigest()[:16]
             else:
                 top.append(node)
-        out[rel + "::<module level>"] = hashlib.sha256("|".join(ast.dump(x) for x in top).encode()).hexdigest()[:16]
+        out[rel + "::<module level>"] = hashlib.sha256("|".join(_text(x) for x in top).encode()).hexdigest()[:16]
     return out
 
 
